@@ -9,7 +9,7 @@ base cycles and cycle adjustments for all 256 opcodes, hence (2) `step .primary 
 That each Go package behaves like `stepWith` over its own tables is the correspondence `vh cpu`, which also runs the
 two real packages against each other in lockstep (every register, flag, cycle count and memory write compared).
 -/
-import SnesVerif.Cpu.Impl
+import SnesVerif.Cpu.Interrupt
 import SnesVerif.Gen.CpuDiff
 open Cpu Gen
 set_option maxRecDepth 100000
@@ -46,6 +46,22 @@ theorem run_agree (n : Nat) : run .primary n = run .alt n := by
   induction n with
   | zero => rfl
   | succ n ih => show (step .primary >>= fun _ => run .primary n) = _; rw [step_agree, ih]; rfl
+
+/-- the interrupt latch constants consulted by `Step` are the same numbers in both packages (regenerated) -/
+theorem latch_consts_agree : latchNone .primary = latchNone .alt ∧ latchNMI .primary = latchNMI .alt ∧
+    latchIRQ .primary = latchIRQ .alt := by decide
+
+/-- **C02** with a pending interrupt: the whole of `Step()` — servicing the latched NMI / IRQ (or nothing), then the
+instruction at the vector — agrees between the packages for every latch value, state and memory -/
+theorem stepFull_agree (l : Nat) : stepFull .primary l = stepFull .alt l := by
+  unfold stepFull service
+  rw [step_agree, latch_consts_agree.2.1, latch_consts_agree.2.2]
+
+/-- `TriggerIRQ` / `triggerNMI` set the same latch value in both packages -/
+theorem trigger_agree (c : Regs) (l : Nat) :
+    triggerIRQ .primary c l = triggerIRQ .alt c l ∧ triggerNMI .primary = triggerNMI .alt := by
+  unfold triggerIRQ triggerNMI
+  rw [latch_consts_agree.2.1, latch_consts_agree.2.2]; exact ⟨rfl, rfl⟩
 
 /-- spelled out on observables: same registers, flags, stop status, memory, write sequence, per-step cycles, total -/
 theorem observables_agree (n : Nat) (s : St) :
